@@ -50,6 +50,9 @@ CHECKS = {
  "C20": dict(level="exploration", family="views", ref="6.17",
    technique="deterministic simulation: recorded states from simulated histories with arbitrary-byte names, duplicate groups and pre-populated pool directories; reference model (decoded content + harness file copies) vs parsed tool output",
    text="On recorded states reached by seeded histories, list, status (counters, per-stripe dump, named files), dup and pool are compared with a reference computed from the independently decoded content file and the harness copy of the file contents: exact file/link sets with names inverted through the tag escaping, exact duplicate partition, exact pool tree (one link per recorded entry, first disk wins, stale links and empty dirs gone, foreign files kept)."),
+ "C17": dict(level="exploration", family="split", ref="6.14",
+   technique="deterministic simulation: twin arrays (single-file parity vs 2-8 split files limited by --test-parity-limit or by device byte budgets giving real ENOSPC) driven through the same seeded histories of growth, shrinkage, split removal/addition, disk loss and crash points; independent content decoder + GF(2^8) parity oracle through the recorded split map; byte comparison of concatenated splits with the twin",
+   text="After every pair of syncs the recorded split sizes are block multiples, files are at least that long, no split is used after an empty one, an inner split keeps its size while the next one stays in use, sizes cover the array, and concat(splits truncated to their recorded sizes) equals the single-file parity of the twin on every used stripe of every level. The always-on parity oracle addresses parity through the split map. The documented refusals (insufficient parity space, used split removed from the configuration) change nothing. Fix after losing a split file or a data disk restores everything and check is clean; crash sweeps of syncs that move the split boundary keep the C06/C07 guarantees."),
  "C19": dict(level="exploration", family="decoy", ref="6.16",
    technique="deterministic simulation: histories with decoys (same name/size/stamp, other bytes), honest copies, aborted syncs, import directories; reference hashes + independent parity oracle on every recorded block, fix bytes against the harness copy",
    text="Decoys and honest copies appear next to fully or partially hashed recorded files, followed by sync variants (plain, pre-hash, --force-nocopy, partial, killed after the parity update): after every command the reference hash of every block recorded as synced must equal the recorded hash and the parity oracle must hold; a decoy taken for a copy must be reported and fail a complete sync; pre-hash must leave parity untouched. With a recorded file lost and decoys on other disks and in -i / --test-import-content directories, fix must produce the recorded bytes or report the file unrecoverable; check must write nothing."),
